@@ -146,7 +146,10 @@ def main():
         man = json.load(open(os.path.join(VERIF, 'coq/gen/manifest.json')))
     except Exception:
         pass
-    terrs = [e for e in man.get('errors', []) if e.get('function') in cfg.get('requires', []) or not cfg.get('requires')]
+    # translation errors count for a property only when they concern a function the property's theorems are about
+    # (a property without generated functions is not touched by a function that stopped translating elsewhere;
+    # a missing definition that a proof needs shows up as a broken proof obligation anyway)
+    terrs = [e for e in man.get('errors', []) if e.get('function') in cfg.get('requires', [])]
     try:
         cman = json.load(open(os.path.join(VERIF, 'coq/gen/classtab_manifest.json')))
         terrs += cman.get('errors', [])
